@@ -573,6 +573,11 @@ fn families() -> Vec<Family> {
         Family { name: "colonless-lines", entry: Entry::Resp, cfg: 1 | 32, gen: |n| rep(RS, b"name junk\r\n", n, b"\r\n") },
         Family { name: "colonless-lines-then-header", entry: Entry::Resp, cfg: 1 | 32, gen: |n| rep(RS, b"name  junk\r\n", n, b"A : b\r\n\r\n") },
         Family { name: "colonless-lines-request", entry: Entry::Req, cfg: 64 | 16, gen: |n| rep(RQ, b"name junk\n", n, b"\n") },
+        Family { name: "ignored-lf-lines-after-crlf-header", entry: Entry::Resp, cfg: 32, gen: |n| rep(b"HTTP/1.1 200 OK\r\nA: b\r\n", b"bad line\n", n, b"\n") },
+        Family { name: "ignored-crlf-lines-after-lf-header", entry: Entry::Req, cfg: 64, gen: |n| rep(b"GET / HTTP/1.1\nA: b\n", b"bad line\r\n", n, b"\r\n") },
+        Family { name: "ignored-long-line-unterminated", entry: Entry::Resp, cfg: 32, gen: |n| rep(b"HTTP/1.1 200 OK\r\nA: b\r\n(", b"x", n, b"") },
+        Family { name: "long-value-unterminated", entry: Entry::Req, cfg: 0, gen: |n| rep(b"GET / HTTP/1.1\r\nA: ", b"v ", n, b"") },
+        Family { name: "folded-value-unterminated", entry: Entry::Resp, cfg: 2, gen: |n| rep(b"HTTP/1.1 200 OK\r\nA: b\r\n ", b"v\t", n, b"") },
     ];
     // (as in the explorer) every header-line family once more with all options of its kind on
     let n = v.len();
